@@ -159,6 +159,43 @@ def flat(width):
     return out
 
 
+def cycles():
+    """inheritance cycles of length 1-3 (also through generic bases) next to every kind of use of the classes on the cycle: field,
+    parameter and return types, arguments of bounded / unbounded generic classes, parameters of '= default' constructors, 'new',
+    static members, overrides. Analysis must end (with one Semantic diagnostic), whatever is looked at first."""
+    out = []
+    rings = [
+        "class A extends A { public constructor() -> A = default; }\n",
+        "class A extends B { public constructor() -> A = default; }\nclass B extends A { public constructor() -> B = default; }\n",
+        "class A extends B { public constructor() -> A = default; }\nclass B extends C { public constructor() -> B = default; }\nclass C extends A { public constructor() -> C = default; }\n",
+        "class A extends G<A> { public constructor() -> A = default; }\nclass G<T> extends A { public constructor() -> G<T> = default; }\n",
+        "class A extends B { public constructor() -> A = default; public virtual function f() -> int { return 1; } }\n"
+        "class B extends A { public constructor() -> B = default; public override function f() -> int { return super.f(); } }\n",
+    ]
+    helpers = ("class Zed { public constructor() -> Zed = default; }\nclass Box<T extends Zed> { public T v; public constructor() -> Box<T> = default; }\n"
+               "class Bag<T> { public T v; public constructor() -> Bag<T> = default; }\nclass Pen<T extends A> { public constructor() -> Pen<T> = default; }\n")
+    uses = [
+        "",
+        "class Holder { public Box<A> b; public constructor(Box<A> b) -> Holder = default; }\n",
+        "class Holder { public Bag<A> b; public constructor(Bag<A> b) -> Holder = default; }\n",
+        "class Holder { public Pen<A> b; public constructor(Pen<A> b) -> Holder = default; }\n",
+        "class Holder { public A a; public constructor(A a) -> Holder = default; public function get() -> A { return a; } }\n",
+        "class Holder extends Box<A> { public constructor() -> Holder { super(); } }\n",
+        "class Holder extends Bag<A> { public constructor() -> Holder { super(); } }\n",
+        "class Holder { public static A s = null; public constructor() -> Holder = default; public static function mk() -> A { return new A(); } }\n",
+        "function take(A a, Box<A> b, Bag<Bag<A>> c) -> A { return a; }\n",
+    ]
+    mains = ["function main() -> void { }\n", "function main() -> void { A a = new A(); Zed z = a; echo(1); }\n", "function main() -> void { Box<A> b = new Box<A>(); Pen<A> p = new Pen<A>(); }\n"]
+    for r in rings:
+        for u in uses:
+            for m in mains:
+                for order in (0, 1, 2):
+                    parts = [helpers, r, u]
+                    parts = parts[order:] + parts[:order]
+                    out.append("".join(parts) + m)
+    return out
+
+
 def run(tier, seed):
     t0 = time.time()
     out = vlib.Outcome(PID)
@@ -204,6 +241,8 @@ def run(tier, seed):
     for d in (1, 2, 8, 32, 64):
         for s in nested(d):
             inputs.append(("nested", s))
+    for s in cycles():
+        inputs.append(("cyclic hierarchy", s))
     for wd in (2, 9, 40, 96):
         for s in flat(wd):
             inputs.append(("flat", s))
